@@ -178,6 +178,22 @@ func runC18(r *Run) {
 				sameMap := mc.(*ssa.MapUpdate).Map == mr.(*ssa.MapUpdate).Map
 				okPath = sameMap && precedes(mc, mr)
 				how = "both levels are merged into one map, the request level written last (last wins)"
+			} else {
+				// the same merge written with maps.Copy(dst, level)
+				copyOf := func(field string) (ssa.Instruction, ssa.Value) {
+					for _, c := range callsIn(u, false) {
+						if strings.HasPrefix(c.Name, "maps.Copy") && len(c.Common.Args) == 2 && dependsOn(c.Common.Args[1], func(v ssa.Value) bool { return loadOfField(v, field) }) != nil {
+							return c.Instr, stripValue(c.Common.Args[0])
+						}
+					}
+					return nil, nil
+				}
+				cc2, cdst := copyOf("client.Client.path")
+				rc2, rdst := copyOf("client.Request.path")
+				if cc2 != nil && rc2 != nil {
+					okPath = cdst == rdst && precedes(cc2, rc2)
+					how = "both levels are copied into one map, the request level last (last wins)"
+				}
 			}
 		}
 		r.check(okPath, "parserRequestURL:path-params:request-before-client", r.fpos(u), how, "client-level path parameters are substituted before request-level ones")
